@@ -26,8 +26,18 @@ def prior_positive(spec, x):
 
 def make_session(rng):
     """model, data, prior table, call sequence"""
-    which = rng.choice(["sir", "sir", "lv"])
-    if which == "sir":
+    which = rng.choice(["sir", "sir", "lv", "sircount"])
+    if which == "sircount":
+        # count-scale SIR with a likelihood-type distance and wide priors: for much of the prior the epidemic dies out and
+        # the loss is undefined (NaN); such trials have no distance below any tolerance
+        true = {"beta": 0.5, "gamma": 1.0 / 3.0, "N": 1000.0}
+        ode = common_models.SIR(dict(true))
+        x0 = [990.0, 10.0, 0.0]
+        t = np.linspace(0, 60, 16)
+        obs = rng.choice([["I"], ["I", "R"]])
+        states = ["S", "I", "R"]
+        state_target = None
+    elif which == "sir":
         true = {"beta": 0.5, "gamma": 1.0 / 3.0}
         ode = common_models.SIR_norm(dict(true))
         x0 = [0.98, 0.02, 0.0]
@@ -45,8 +55,10 @@ def make_session(rng):
         state_target = None
     ode.initial_values = (x0, t[0])
     sol = ode.integrate(t[1:])
-    names_all = list(true)
+    names_all = [n for n in true if not (which == "sircount" and n == "N")]
     k = rng.randint(1, min(2, len(names_all)))
+    if which == "sircount":
+        k = 2
     chosen = rng.sample(names_all, k)
     if rng.random() < 0.5:
         chosen = sorted(chosen, key=lambda n: -names_all.index(n))       # parameter order differing from model order
@@ -55,8 +67,10 @@ def make_session(rng):
         tv = true[nm]
         kind = rng.choice(["unif", "unif", "gamma", "norm"])
         logscale = False
+        if which == "sircount":
+            kind = "unif"
         if kind == "unif":
-            lo, hi = 0.5 * tv, 1.6 * tv
+            lo, hi = (0.05, 3.0) if which == "sircount" else (0.5 * tv, 1.6 * tv)
             if rng.random() < 0.35:
                 logscale = True
                 args = (math.log10(lo), math.log10(hi))
@@ -72,9 +86,20 @@ def make_session(rng):
         table.append({"name": nm, "dist": "unif", "args": (0.5 * tv, 1.5 * tv), "logscale": False, "is_state": True})
     if rng.random() < 0.5:
         rng.shuffle(table)
+    if state_target is not None and rng.random() < 0.6:
+        # an initial value listed BEFORE the model parameters, and log-scale flags that differ between the entries
+        table.sort(key=lambda p: not p["is_state"])
+        unif = [p for p in table if not p["is_state"] and p["dist"] == "unif" and not p["logscale"]]
+        if unif and not any(p["logscale"] for p in table):
+            p = unif[0]
+            p["args"] = (math.log10(p["args"][0]), math.log10(p["args"][1]))
+            p["logscale"] = True
     idx = [states.index(s) for s in obs]
     y = sol[1:, idx] if len(idx) > 1 else sol[1:, idx[0]]
     loss_type = rng.choice(["SquareLoss", "SquareLoss", "NormalLoss"])
+    if which == "sircount":
+        y = np.maximum(np.round(y), 0.0)
+        loss_type = "PoissonLoss"
     mode = rng.choice(["rejection", "list", "quantile", "quantile"])
     N = rng.randint(10, 40)
     G = 1 if mode == "rejection" else rng.randint(2, 4)
@@ -113,7 +138,9 @@ def perform_session(seed):
     cfg, ode, y = make_session(rng)
     params, obj = build_objects(cfg, ode, y)
     # a fresh loss object on a fresh model for recomputation
-    if cfg["which"] == "sir":
+    if cfg["which"] == "sircount":
+        ode2 = common_models.SIR(dict(cfg["true"]))
+    elif cfg["which"] == "sir":
         ode2 = common_models.SIR_norm(dict(cfg["true"]))
     else:
         ode2 = common_models.Lotka_Volterra(dict(cfg["true"]))
